@@ -15,6 +15,9 @@ use std::io::{self, ErrorKind};
 use std::panic::RefUnwindSafe;
 use std::sync::atomic::{AtomicBool, AtomicU64, Ordering};
 use std::sync::Arc;
+#[cfg(cadence_verif)]
+use crate::verif_shim::thread;
+#[cfg(not(cadence_verif))]
 use std::thread;
 
 /// Implementation of a builder pattern for `QueuingMetricSink`.
